@@ -6,6 +6,7 @@ From NV Require Import Prelude.Str Prelude.Res Prelude.Utf8 Model.Url Model.Tita
 From NV Require Spec.C01 Spec.C07 Spec.C15.
 From NV Require Import Proofs.Server_inv.
 Import ListNotations.
+Set Default Proof Using "Type".
 
 (* ---------- measures over action lists ---------- *)
 Definition is_close (a : action) : bool := match a with AClose => true | _ => false end.
@@ -23,14 +24,14 @@ Lemma invocs_app a b : invocs (a ++ b) = (invocs a + invocs b)%nat.
 Proof. unfold invocs. rewrite filter_app, app_length. reflexivity. Qed.
 Lemma existsb_count {A} (f : A -> bool) l : existsb f l = false <-> length (filter f l) = O.
 Proof.
-  induction l as [|x l IH]; cbn; [tauto|]. destruct (f x); cbn; [split; [discriminate|lia]|exact IH].
+  induction l as [|x l IH]; cbn; [tauto|]. destruct (f x); cbn; [split; [discriminate|slia]|exact IH].
 Qed.
 Lemma existsb_count_pos {A} (f : A -> bool) l : existsb f l = true <-> (0 < length (filter f l))%nat.
 Proof.
   destruct (existsb f l) eqn:E.
-  - split; [intros _|reflexivity]. destruct (length (filter f l)) eqn:L; [|lia].
+  - split; [intros _|reflexivity]. destruct (length (filter f l)) eqn:L; [|slia].
     apply existsb_count in L. congruence.
-  - apply existsb_count in E. rewrite E. split; [discriminate|lia].
+  - apply existsb_count in E. rewrite E. split; [discriminate|slia].
 Qed.
 
 Lemma resp_acts_closes r : closes (resp_acts r) = 1%nat.
@@ -62,7 +63,7 @@ Proof. constructor; cbn; auto. Qed.
 Lemma Eff_trans s s1 s2 a1 a2 : Eff s s1 a1 -> Eff s1 s2 a2 -> Eff s s2 (a1 ++ a2).
 Proof.
   intros [C1 T1 S1 M1 P1] [C2 T2 S2 M2 P2]. constructor.
-  - rewrite closes_app. lia.
+  - rewrite closes_app. slia.
   - congruence.
   - intro H. rewrite existsb_app, S1, S2; auto. congruence.
   - auto.
@@ -290,21 +291,21 @@ Definition cap (s : st) : nat :=
 Definition Cap (s s' : st) (a : list action) (k : nat) : Prop := (invocs a + cap s' <= cap s + k)%nat.
 
 Lemma Cap_refl s : Cap s s [] 0.
-Proof. unfold Cap. cbn. lia. Qed.
+Proof. unfold Cap. cbn. slia. Qed.
 Lemma Cap_trans s s1 s2 a1 a2 k1 k2 : Cap s s1 a1 k1 -> Cap s1 s2 a2 k2 -> Cap s s2 (a1 ++ a2) (k1 + k2).
-Proof. unfold Cap. rewrite invocs_app. lia. Qed.
+Proof. unfold Cap. rewrite invocs_app. slia. Qed.
 Lemma Cap_weaken s s' a k k' : Cap s s' a k -> (k <= k')%nat -> Cap s s' a k'.
-Proof. unfold Cap. lia. Qed.
+Proof. unfold Cap. slia. Qed.
 Lemma Cap_cons s s' x a k : is_invocation x = false -> Cap s s' a k -> Cap s s' (x :: a) k.
 Proof. unfold Cap, invocs. cbn. intros ->. auto. Qed.
 Lemma Cap_cons1 s s' x a k : Cap s s' a k -> Cap s s' (x :: a) (S k).
-Proof. unfold Cap, invocs. cbn. destruct (is_invocation x); cbn; lia. Qed.
+Proof. unfold Cap, invocs. cbn. destruct (is_invocation x); cbn; slia. Qed.
 
 Lemma Cap_send s r k : Cap s (fst (send_response s r)) (snd (send_response s r)) k.
 Proof.
   rewrite send_response_eq. unfold Cap. destruct (muted s); cbn [fst snd].
-  - cbn. lia.
-  - rewrite resp_acts_invocs. unfold cap, mwcount. cbn. lia.
+  - cbn. slia.
+  - rewrite resp_acts_invocs. unfold cap, mwcount. cbn. slia.
 Qed.
 
 Lemma mwcount_app p q : mwcount (p ++ q) = (mwcount p + mwcount q)%nat.
@@ -313,12 +314,12 @@ Proof. unfold mwcount. rewrite filter_app, app_length. reflexivity. Qed.
 Lemma Cap_spawn s k act : is_invocation act = false -> Cap s (fst (spawn s k)) [act] 1.
 Proof.
   intro H. unfold Cap, invocs, cap. cbn. rewrite H, mwcount_app. cbn.
-  unfold mwcount at 2. cbn. destruct (is_mwk _); cbn; lia.
+  unfold mwcount at 2. cbn. destruct (is_mwk _); cbn; slia.
 Qed.
 Lemma Cap_spawn0 s k act : is_mwk (next_id s, k) = false -> Cap s (fst (spawn s k)) [act] 1.
 Proof.
   intro H. unfold Cap, invocs, cap. cbn. rewrite mwcount_app. cbn.
-  unfold mwcount at 2. cbn. rewrite H. destruct (is_invocation act); cbn; lia.
+  unfold mwcount at 2. cbn. rewrite H. destruct (is_invocation act); cbn; slia.
 Qed.
 
 Lemma Cap_route s line : Cap s (fst (route s line)) (snd (route s line)) 1.
@@ -327,7 +328,7 @@ Proof.
   - pose proof (Cap_send s r 0) as H. destruct (send_response s r). apply Cap_cons1, H.
   - rewrite send_error_eq. pose proof (Cap_send s (err_resp 40 (lit "Server error: " ++ msg)) 0) as H.
     destruct (send_response s _). apply Cap_cons1, H.
-  - rewrite spawn_let; cbn [fst snd]. unfold Cap, invocs, cap. cbn. rewrite mwcount_app. unfold mwcount at 2. cbn. lia.
+  - rewrite spawn_let; cbn [fst snd]. unfold Cap, invocs, cap. cbn. rewrite mwcount_app. unfold mwcount at 2. cbn. slia.
 Qed.
 
 Lemma Cap_handle_gemini s line : Cap s (fst (handle_gemini s line)) (snd (handle_gemini s line)) 1.
@@ -335,13 +336,13 @@ Proof.
   unfold ServerProto.handle_gemini. destruct (gemini_from_line ip6 line).
   - destruct has_mw; [|apply Cap_route]. rewrite spawn_let; cbn [fst snd]. apply Cap_spawn. reflexivity.
   - rewrite send_error_eq. apply Cap_send.
-  - cbn. unfold Cap. cbn. lia.
+  - cbn. unfold Cap. cbn. slia.
 Qed.
 
 Lemma Cap_start_upload s : Cap s (fst (start_upload s)) (snd (start_upload s)) 1.
 Proof.
-  unfold ServerProto.start_upload. destruct (titan s); [|eapply Cap_weaken; [apply Cap_refl|lia]].
-  destruct has_upload; [|eapply Cap_weaken; [apply Cap_refl|lia]].
+  unfold ServerProto.start_upload. destruct (titan s); [|eapply Cap_weaken; [apply Cap_refl|slia]].
+  destruct has_upload; [|eapply Cap_weaken; [apply Cap_refl|slia]].
   rewrite spawn_let; cbn [fst snd]. apply Cap_spawn0. reflexivity.
 Qed.
 
@@ -359,7 +360,7 @@ Lemma Cap_same s0 s s' a k : line_rcvd s = line_rcvd s0 -> await_titan s = await
   pending s = pending s0 -> Cap s s' a k -> Cap s0 s' a k.
 Proof. unfold Cap, cap. intros -> -> ->. auto. Qed.
 Lemma Cap_le s0 s s' a k : (cap s <= cap s0)%nat -> Cap s s' a k -> Cap s0 s' a k.
-Proof. unfold Cap. lia. Qed.
+Proof. unfold Cap. slia. Qed.
 
 Lemma Cap_htu s line : Cap s (fst (handle_titan_url s line)) (snd (handle_titan_url s line)) 1.
 Proof.
@@ -368,13 +369,13 @@ Proof.
   destruct (titan_from_line ip6 line) as [t|k m|].
   - fold (set_titan s t). set (s1 := set_titan s t). destruct (N.eqb (t_size t) 0).
     + eapply Cap_le; [|apply Cap_ptu]. rewrite cancel_timer_eq. unfold cap. cbn.
-      destruct (line_rcvd s), (await_titan s); lia.
+      destruct (line_rcvd s), (await_titan s); slia.
     + destruct (N.leb _ _).
       * eapply Cap_le; [|apply Cap_ptu]. rewrite cancel_timer_eq. unfold cap. cbn.
-        destruct (line_rcvd s), (await_titan s); lia.
-      * unfold Cap, cap. cbn. destruct (line_rcvd s), (await_titan s); lia.
+        destruct (line_rcvd s), (await_titan s); slia.
+      * unfold Cap, cap. cbn. destruct (line_rcvd s), (await_titan s); slia.
   - rewrite send_error_eq; apply Cap_send.
-  - unfold Cap. cbn. lia.
+  - unfold Cap. cbn. slia.
 Qed.
 
 Lemma Cap_data_received s d : Cap s (fst (data_received s d)) (snd (data_received s d)) 0.
@@ -383,24 +384,24 @@ Proof.
   change (line_rcvd s1) with (line_rcvd s). change (await_titan s1) with (await_titan s).
   change (titan s1) with (titan s).
   destruct (line_rcvd s) eqn:L; cbn [negb].
-  - destruct (await_titan s) eqn:A; [|unfold Cap, cap; cbn; rewrite L, A; lia].
-    destruct (titan s); [|unfold Cap, cap; cbn; rewrite L, A; lia].
-    destruct (N.leb _ _); [|unfold Cap, cap; cbn; rewrite L, A; lia].
+  - destruct (await_titan s) eqn:A; [|unfold Cap, cap; cbn; rewrite L, A; slia].
+    destruct (titan s); [|unfold Cap, cap; cbn; rewrite L, A; slia].
+    destruct (N.leb _ _); [|unfold Cap, cap; cbn; rewrite L, A; slia].
     pose proof (Cap_ptu (set_content (cancel_timer s1) (take (N.to_nat (t_size t)) (buf s1)))) as H.
-    revert H. unfold Cap, cap. rewrite cancel_timer_eq. cbn. rewrite L, A. lia.
+    revert H. unfold Cap, cap. rewrite cancel_timer_eq. cbn. rewrite L, A. slia.
   - destruct (break_crlf (buf s1)) as [[line rest]|].
     + destruct (N.ltb 1024 _); [rewrite send_error_eq; apply (Cap_same s s1); [cbn; congruence|reflexivity|reflexivity|apply Cap_send]|].
       set (s2 := set_buf s1 rest true).
-      assert (C2 : (cap s2 + 1 <= cap s)%nat) by (unfold cap; cbn; rewrite L; lia).
+      assert (C2 : (cap s2 + 1 <= cap s)%nat) by (unfold cap; cbn; rewrite L; slia).
       destruct (decode line) as [url|].
       * destruct (prefixb titan_prefix url).
-        -- pose proof (Cap_htu s2 url) as H. unfold Cap in *. lia.
+        -- pose proof (Cap_htu s2 url) as H. unfold Cap in *. slia.
         -- pose proof (Cap_handle_gemini (cancel_timer s2) url) as H. unfold Cap in *.
-           assert (cap (cancel_timer s2) = cap s2) by (rewrite cancel_timer_eq; reflexivity). lia.
+           assert (cap (cancel_timer s2) = cap s2) by (rewrite cancel_timer_eq; reflexivity). slia.
       * rewrite send_error_eq. pose proof (Cap_send s2 (err_resp 59 (lit "Invalid UTF-8 encoding")) 0) as H.
-        unfold Cap in *. lia.
+        unfold Cap in *. slia.
     + destruct (N.ltb 1024 _); [rewrite send_error_eq; apply (Cap_same s s1); [cbn; congruence|reflexivity|reflexivity|apply Cap_send]|].
-      unfold Cap, cap; cbn; lia.
+      unfold Cap, cap; cbn; rewrite L; slia.
 Qed.
 
 Lemma Cap_feed sl : forall s, Cap s (fst (feed s sl)) (snd (feed s sl)) 0.
@@ -416,9 +417,9 @@ Lemma take_task_mwcount id p k rest : take_task id p = (Some k, rest) ->
 Proof.
   revert rest; induction p as [|[i k'] p IH]; cbn; intros rest H; [discriminate|].
   destruct (Nat.eqb i id) eqn:E.
-  - inversion H; subst. unfold mwcount. cbn. unfold is_mwk at 1 3. cbn. destruct k; cbn; lia.
+  - inversion H; subst. unfold mwcount, is_mwk. cbn. destruct k; cbn; slia.
   - destruct (take_task id p) as [r q]. inversion H; subst. specialize (IH q eq_refl).
-    unfold mwcount in *. cbn. destruct (is_mwk (i, k')); cbn; lia.
+    unfold mwcount in *. cbn. destruct (is_mwk (i, k')); cbn; slia.
 Qed.
 
 Lemma Cap_task_done s id o : Cap s (fst (task_done s id o)) (snd (task_done s id o)) 0.
@@ -427,11 +428,13 @@ Proof.
   destruct (take_task id (pending s)) as [[k|] rest] eqn:E; [|apply Cap_refl].
   apply take_task_mwcount in E. set (s1 := set_pending s rest).
   assert (C1 : cap s = (cap s1 + (if is_mwk (id, k) then 1 else 0))%nat)
-    by (unfold cap; cbn; rewrite E; lia).
+    by (unfold cap; cbn; rewrite E; slia).
   pose proof (fun r => Cap_send s1 r 0) as HS. pose proof (Cap_route s1) as HR.
   pose proof (Cap_start_upload s1) as HU. unfold Cap in *.
-  destruct k; destruct o as [r|m|[|] text|]; norm_err; cbn in C1;
-    first [specialize (HS _); lia | specialize (HR _); lia | lia ].
+  destruct k; destruct o as [r|m|[|] text|]; norm_err; unfold is_mwk in C1; cbn [snd] in C1;
+    first [ match goal with |- context [send_response s1 ?r] => specialize (HS r) end; slia
+          | match goal with |- context [ServerProto.route _ s1 ?l] => specialize (HR l) end; slia
+          | slia ].
 Qed.
 
 Lemma Cap_step s e : Cap s (fst (step s e)) (snd (step s e)) 0.
@@ -439,9 +442,9 @@ Proof.
   destruct e; cbn [ServerProto.step].
   - destruct (tr s); [apply Cap_feed|apply Cap_refl].
   - destruct (timer s); try apply Cap_refl. cbn.
-    destruct (tr s && negb (closing s) && negb (sent s)); cbn; unfold Cap, cap; cbn; lia.
+    destruct (tr s && negb (closing s) && negb (sent s)); cbn; unfold Cap, cap; cbn; slia.
   - apply Cap_task_done.
-  - destruct (tr s); [|apply Cap_refl]. cbn. rewrite cancel_timer_eq. unfold Cap, cap; cbn; lia.
+  - destruct (tr s); [|apply Cap_refl]. cbn. rewrite cancel_timer_eq. unfold Cap, cap; cbn; slia.
 Qed.
 
 (* ================= lifting to run / final ================= *)
@@ -458,14 +461,14 @@ Lemma run_closes evs : forall s, (closes (flat (run s evs)) + cs s = cs (final s
 Proof.
   induction evs as [|e r IH]; intro s; [reflexivity|].
   rewrite run_cons, final_cons, flat_cons, closes_app.
-  pose proof (step_closes s e). specialize (IH (fst (step s e))). lia.
+  pose proof (step_closes s e). specialize (IH (fst (step s e))). slia.
 Qed.
 
 Lemma run_invocs evs : forall s, (invocs (flat (run s evs)) + cap (final s evs) <= cap s)%nat.
 Proof.
-  induction evs as [|e r IH]; intro s; [cbn; lia|].
+  induction evs as [|e r IH]; intro s; [cbn; slia|].
   rewrite run_cons, final_cons, flat_cons, invocs_app.
-  pose proof (Cap_step s e) as H. specialize (IH (fst (step s e))). unfold Cap in H. lia.
+  pose proof (Cap_step s e) as H. specialize (IH (fst (step s e))). unfold Cap in H. slia.
 Qed.
 
 End Proto.
